@@ -202,6 +202,16 @@ class JokerPrior:
                 )
                 raise ValueError(msg)
 
+            # The likelihood helper fetches these priors from the pymc model by name:
+            # a variable of the same name that lives in another model (or an
+            # unregistered .dist() variable) is not the one that would be used
+            if self.model.named_vars.get(name) is not p:
+                msg = (
+                    f"The prior on the linear parameter {name} is not the variable "
+                    f"registered as '{name}' in this prior's pymc model"
+                )
+                raise ValueError(msg)
+
             # "independent": the likelihood helper evaluates mu and sigma of these
             # priors ONCE, so they must not depend on other random variables. The
             # one supported exception is FixedCompanionMass for K, whose dependence
